@@ -55,14 +55,22 @@ def build_driver(tags=("verif",), race=False, name=None, pkg="./cmd/luadrv"):
     out = os.path.join(scratch(), name)
     if os.path.exists(out):
         return out
+    harness = HARNESS
+    if REPO != "/repo":
+        # development aid (VERIF_REPO=<scratch clone>): build a private copy of the harness whose replace points there
+        harness = os.path.join(scratch(), "harness")
+        if not os.path.isdir(harness):
+            shutil.copytree(HARNESS, harness)
+            gm = open(os.path.join(harness, "go.mod")).read().replace("=> /repo", "=> " + REPO)
+            open(os.path.join(harness, "go.mod"), "w").write(gm)
     # go.sum must be the repository's (no network to fetch sums)
-    shutil.copyfile(os.path.join(REPO, "go.sum"), os.path.join(HARNESS, "go.sum"))
+    shutil.copyfile(os.path.join(REPO, "go.sum"), os.path.join(harness, "go.sum"))
     cmd = ["go", "build", "-tags", ",".join(tags), "-ldflags=-checklinkname=0", "-o", out]
     if race:
         cmd.insert(2, "-race")
     cmd.append(pkg)
     t0 = time.time()
-    p = subprocess.run(cmd, cwd=HARNESS, env=GOENV, capture_output=True, text=True)
+    p = subprocess.run(cmd, cwd=harness, env=GOENV, capture_output=True, text=True)
     if p.returncode != 0:
         raise Infra("driver build failed (%s):\n%s" % (" ".join(cmd), p.stderr[-4000:]))
     log("[build] %s in %.1fs" % (name, time.time() - t0))
